@@ -66,15 +66,30 @@ def check_compare(prog, rep, profile, rule="compare"):
     return paths
 
 
-def closure_pipeline(prog, rep, closure_def, profile, rule, inst):
+def closure_pipeline(prog, rep, closure_def, profile, rule, inst, caps=None):
     """The body of a closure handed to stabilize, as a pipeline over its argument."""
     b = prog.body(closure_def)
     if b is None:
         rep.ob(rule, inst, False, "closure body %s not exported" % closure_def)
         return None
     rep.fn(closure_def)
-    # closure env: (&self,) — the closure borrows the profile
-    env = Ref(("val", ip.Clo(closure_def, (self_ref(profile),))))
+    # closure env: what the call site captured (by default (&self,) — the closure borrows the profile)
+    captured = []
+    ups = b.d.get("upvars") or []
+    for i, c in enumerate(caps or ()):
+        if isinstance(c, (ip.Adt, ip.I)) and i < len(ups):
+            # the captured place's type says how many references sit between the closure field and the value
+            fty = next((pj.get("ty", "") for pj in ups[i]["place"]["p"] if pj.get("k") == "field"), "")
+            v = c
+            for _ in range(len(fty) - len(fty.lstrip("&"))):
+                v = Ref(("val", v))
+            captured.append(v)
+        else:
+            captured = None
+            break
+    if not captured:
+        captured = [self_ref(profile)]
+    env = Ref(("val", ip.Clo(closure_def, tuple(captured))))
     try:
         return pl.extract(prog, closure_def, [env, Str(("input",))])
     except ip.AnalysisError as e:
@@ -95,12 +110,12 @@ def nickname_enforce(prog, rep, rule="pipeline"):
     except ip.AnalysisError as e:
         rep.analysis_error(rule, "Nickname::enforce", e, b.where())
         return
-    clos = {e[3] for p in paths if isinstance(p[0], tuple) for e in p[0] if e[0] == "stabilize"}
+    clos = {(e[3], e[4] if len(e) > 4 else None) for p in paths if isinstance(p[0], tuple) for e in p[0] if e[0] == "stabilize"}
     shape = sorted((tuple((e[0], e[1], e[2]) for e in p[0]), p[1]) for p in paths if isinstance(p[0], tuple))
     want = sorted([((("stabilize", ("input",), "Err"),), ("Err", ("leaf", 1))), ((("stabilize", ("input",), "Ok"),), ("Ok", ("out", 1)))])
     rep.ob(rule, "Nickname::enforce = stabilize(input, rules)", shape == want and len(clos) == 1, "extracted %s" % (shape,), b.where(), key="%s|Nickname::enforce|stabilize" % rule, sample=True)
-    for c in clos:
-        cp = closure_pipeline(prog, rep, c, "Nickname", rule, "Nickname::enforce closure")
+    for c, caps in sorted(clos, key=repr):
+        cp = closure_pipeline(prog, rep, c, "Nickname", rule, "Nickname::enforce closure", caps)
         if cp is None:
             continue
         want = [(ev, r) for ev, r, n in pl.spec_paths(sp.NICK_ENFORCE_RULES, ("input",))]
@@ -130,11 +145,11 @@ def nickname_compare(prog, rep, rule="compare"):
     for p in paths:
         if isinstance(p[0], tuple):
             for e in p[0]:
-                if e[0] == "stabilize" and (e[1], e[3]) not in clos:
-                    clos.append((e[1], e[3]))
+                if e[0] == "stabilize" and (e[1], e[3], e[4] if len(e) > 4 else None) not in clos:
+                    clos.append((e[1], e[3], e[4] if len(e) > 4 else None))
     rep.ob(rule, "Nickname::compare closures", len(clos) == 2, "expected one closure per operand, found %s" % (clos,), b.where())
-    for intag, c in clos:
-        cp = closure_pipeline(prog, rep, c, "Nickname", rule, "Nickname::compare closure for %s" % pl.fmt_tag(intag))
+    for intag, c, caps in clos:
+        cp = closure_pipeline(prog, rep, c, "Nickname", rule, "Nickname::compare closure for %s" % pl.fmt_tag(intag), caps)
         if cp is None:
             continue
         w1 = [(ev, r) for ev, r, n in pl.spec_paths(sp.NICK_COMPARE_RULES, ("input",))]
@@ -233,3 +248,23 @@ def normalizer_shape(prog, rep, fn, form, rule="normalizer"):
     if not bad and not n_full:
         bad.append("no path returns the normalized copy s.%s().collect()" % form)
     rep.ob(rule, "%s: returns s when known to be in %s, else s.%s().collect()" % (fn, form.upper(), form), not bad, "; ".join(sorted(set(bad))[:2]), b.where(), key="%s|%s" % (rule, fn), sample=True)
+
+
+_LEAF_CACHE = {}
+
+
+def include_leaves(rep, leaves):
+    """The profile properties are stated over the behaviour of whole operations: the pipeline shape decided
+    here and the semantics of every leaf rule on it. The leaves have their own properties; their (quick)
+    obligations are adopted here, so a defect in a leaf is a violation of each profile property built on it
+    (keys `dep|<leaf>|…`)."""
+    import importlib
+
+    for pid, why in leaves:
+        sub = _LEAF_CACHE.get(pid)
+        if sub is None:
+            mod = importlib.import_module("pv.rules." + pid)
+            sub = mod.run("quick")
+            _LEAF_CACHE[pid] = sub
+        rep.include(sub, pid)
+        rep.extra.setdefault("leaf_dependencies", []).append({"property": pid, "role": why, "obligations": len(sub.obligations), "violations": len(sub.violations)})
